@@ -2160,10 +2160,14 @@ StylesheetExecutionContextDefault::getNodeSetByKey(
                 getPrefixResolver();
     assert(resolver != 0);
 
-    XalanQNameByValue&  theQName =
-        m_xpathExecutionContextDefault.getScratchQName();
-
-    theQName.set(name, resolver, locator);
+    // The name has to stay intact while the key table is built (the
+    // use and match expressions of the keys are evaluated then, and may
+    // themselves expand QNames through the shared scratch object).
+    const XalanQNameByValue     theQName(
+                                    name,
+                                    getMemoryManager(),
+                                    resolver,
+                                    locator);
 
     m_stylesheetRoot->getNodeSetByKey(
         context,
